@@ -191,8 +191,15 @@ pub fn parse_docs(attrs: &[Attribute]) -> Result<String> {
         .collect::<Result<Vec<_>>>()?;
 
     // `*/` inside the documentation (or formed where it meets the ` *` line prefix) would end the
-    // JSDoc block early
-    let escape = |body: &str| body.replace("*/", "*\\/");
+    // JSDoc block early. An empty line would split the comment when several types are exported
+    // to one file, since declarations in a file are separated by empty lines.
+    let escape = |body: &str| {
+        let mut body = body.replace("*/", "*\\/");
+        while body.contains("\n\n") {
+            body = body.replace("\n\n", "\n *\n");
+        }
+        body
+    };
 
     Ok(match doc_attrs.len() {
         // No docs
